@@ -342,7 +342,7 @@ def render_ds(ds) -> str:
     return f"D0({ds.num_obs};[{render_fields(ds._fields, [])}])"
 
 
-def one_dataset(ctx: Ctx, setup_ops, level: int, meta: dict, tmp: str, tag: str):
+def one_dataset(ctx: Ctx, setup_ops, level: int, meta: dict, tmp: str, tag: str, mult: dict = None):
     from midgard.data import dataset
 
     rw = RealWorld()
@@ -357,7 +357,13 @@ def one_dataset(ctx: Ctx, setup_ops, level: int, meta: dict, tmp: str, tag: str)
     ds = rw.ds[0]
     for k, v in meta.items():
         ds.meta[k] = v
-    case = {"ops": concrete, "level": level, "meta": {k: meta_tokens(v) for k, v in meta.items()}}
+    mult = mult or {}
+    for path, m in mult.items():      # the multiplier of a field (not part of the model: oracle only)
+        try:
+            ds.field(path).multiplier = m
+        except Exception:
+            pass
+    case = {"ops": concrete, "level": level, "meta": {k: meta_tokens(v) for k, v in meta.items()}, "mult": mult}
     nontrivial = any(o["op"] == "add" for o in concrete)
     for o in concrete:
         if o["op"] == "addcoll":
@@ -488,8 +494,8 @@ def codec_case(ctx: Ctx, m):
         out = _h5utils.decode_h5attr(enc)
         impl = " ".join(meta_tokens(out))
         ok = _same(m, out)
-    except TypeError:
-        impl, ok = "unsavable", (m is None)
+    except TypeError as ex:
+        impl, ok, out = "unsavable", (m is None), f"<TypeError: {str(ex)[:80]}>"
     except Exception as ex:
         impl, ok = "ERR:" + type(ex).__name__, False
         ctx.violate("codec:raises:" + type(ex).__name__, f"encode/decode of {m!r} raised {type(ex).__name__}: {ex}", case)
@@ -525,7 +531,7 @@ def run(ctx: Ctx):
                 if "codec" in c:
                     codec_case(ctx, tokens_meta(c["codec"]))
                 else:
-                    one_dataset(ctx, c["ops"], c["level"], {k: tokens_meta(v) for k, v in c.get("meta", {}).items()}, tmp, "corpus")
+                    one_dataset(ctx, c["ops"], c["level"], {k: tokens_meta(v) for k, v in c.get("meta", {}).items()}, tmp, "corpus", c.get("mult"))
         for t in TRICKY:
             codec_case(ctx, t)
             codec_case(ctx, [t, {"k": t}])
@@ -534,7 +540,9 @@ def run(ctx: Ctx):
         for _ in range(ctx.budget(1500, 30000)):
             meta = {f"k{i}": gen_meta(rng) for i in range(rng.choice([0, 1, 2, 4]))}
             meta = {k: v for k, v in meta.items() if v is not None}
-            one_dataset(ctx, gen_dataset_ops(rng), rng.choice([1, 2, 3]), meta, tmp, "random")
+            ops = gen_dataset_ops(rng)
+            mult = {o["path"]: rng.choice([2, -1, 3]) for o in ops if o["op"] == "add" and rng.random() < 0.15}
+            one_dataset(ctx, ops, rng.choice([1, 2, 3]), meta, tmp, "random", mult)
     finally:
         shutil.rmtree(tmp, ignore_errors=True)
 
@@ -594,7 +602,7 @@ def replay(payload):
         if "codec" in c:
             codec_case(ctx, tokens_meta(c["codec"]))
         else:
-            one_dataset(ctx, c["ops"], c["level"], {k: tokens_meta(v) for k, v in c.get("meta", {}).items()}, tmp, "replay")
+            one_dataset(ctx, c["ops"], c["level"], {k: tokens_meta(v) for k, v in c.get("meta", {}).items()}, tmp, "replay", c.get("mult"))
     finally:
         shutil.rmtree(tmp, ignore_errors=True)
     for v in ctx.violations:
